@@ -58,6 +58,7 @@ func (t *tracer) run(ctx context.Context) {
 	var termination sync.Once
 	defer close(t.done)
 
+	ctxDone := ctx.Done()
 	for {
 		select {
 		case sch := <-t.subscription:
@@ -86,7 +87,10 @@ func (t *tracer) run(ctx context.Context) {
 			for _, subscriber := range t.subscribers {
 				subscriber <- trace
 			}
-		case <-ctx.Done():
+		case <-ctxDone:
+			// the context stays done forever: stop selecting on it, otherwise
+			// this loop spins until the last sender is done
+			ctxDone = nil
 			// Start a termination waiting routine (only once)
 			termination.Do(func() {
 				go func() {
